@@ -314,6 +314,10 @@ class EIG(BaseRoutine):
         ret = False
         results = dict()
 
+        if self.system.PFlow.converged is False:
+            logger.warning('Power flow not solved. Parameter sweep will not continue.')
+            return ret
+
         if not isinstance(params, Iterable):
             params = (params, )
 
@@ -482,7 +486,7 @@ class EIG(BaseRoutine):
 
         if system.PFlow.converged is False:
             logger.warning('Power flow not solved. Eig analysis will not continue.')
-            status = False
+            return False
 
         if system.TDS.initialized is False:
             system.TDS.init()
